@@ -1306,7 +1306,12 @@ int main(int argc, char** argv) {
     gen_workload(seed, w, go, pl);
     Refs refs;
     compute_refs(pl, refs);
-    if (!refs.ok) { fprintf(stderr, "%s\n", refs.why.c_str()); return 3; }
+    if (!refs.ok) {
+      // still print the workload (serial schedule), so that the failing reference can be inspected
+      fprintf(stderr, "%s\n", refs.why.c_str());
+      fputs(plan_to_text(pl).c_str(), stdout);
+      return 3;
+    }
     gen_sched(seed, w, s, pl, refs, pl.sched);
     fputs(plan_to_text(pl).c_str(), stdout);
     return 0;
